@@ -259,8 +259,42 @@ func g(s neotest.Signer) world.SignerSpec { return world.G(s) }
 
 func single(kp *keys.PrivateKey) world.SignerSpec { return world.G(world.Single(kp)) }
 
-// signerSets expands a requirement kind into the signer sets of the quantifier; the sufficient one comes last.
+// signerSets: the sets of baseSets plus, for every sufficient set, the same keys signing with a scope that does not
+// reach the call: each signer in turn with scope None (what a pure fee payer has) while the others stay Global, and all
+// of them restricted to an address that is not the contract. A signature that is there but does not cover the call is no
+// witness (seeded changes C07-11 and C11-11: "is among the transaction's signers" asked instead of CheckWitness).
 func (p *prep) signerSets(s spec) []signerSet {
+	sets := p.baseSets(s)
+	var extra []signerSet
+	for _, ss := range sets {
+		if !ss.sufficient || len(ss.signers) == 0 || p.pre[ss.label] != nil {
+			continue
+		}
+		for i := range ss.signers {
+			v := append([]world.SignerSpec{}, ss.signers...)
+			v[i] = world.Scoped(v[i].S, transaction.None)
+			extra = append(extra, signerSet{fmt.Sprintf("%s/signer-%d-with-scope-None", ss.label, i), v, false})
+			// ... and the same as the transaction's sender, which is where a signer that only pays the fees stands
+			v = append([]world.SignerSpec{}, v...)
+			v[i].Sends = true
+			extra = append(extra, signerSet{fmt.Sprintf("%s/signer-%d-sends-with-scope-None", ss.label, i), v, false})
+		}
+		v := make([]world.SignerSpec, len(ss.signers))
+		for i := range ss.signers {
+			v[i] = world.Scoped(ss.signers[i].S, transaction.CustomContracts, p.stranger.ScriptHash())
+		}
+		extra = append(extra, signerSet{ss.label + "/scoped-to-another-address", v, false})
+	}
+	for i, ss := range sets {
+		if ss.sufficient {
+			return append(append(append([]signerSet{}, sets[:i]...), extra...), sets[i:]...)
+		}
+	}
+	return append(sets, extra...)
+}
+
+// baseSets expands a requirement kind into the signer sets of the quantifier; the sufficient one comes last.
+func (p *prep) baseSets(s spec) []signerSet {
 	w := p.w
 	majIsAlpha := w.Majority.ScriptHash() == w.Alphabet.ScriptHash()
 	nobody := signerSet{"nobody", nil, false}
@@ -471,6 +505,13 @@ func runMethod(b *runner.Batch, n int, art, method string, arity int, s spec) {
 				b.Violation(fmt.Sprintf("%s under signer set '%s' (requires %s) passed the witness gate and was stopped only by the version check", key, ss.label, s.kind), det())
 			}
 			b.Hit("insufficient:" + ss.label)
+			if strings.Contains(ss.label, "-with-scope-None") || strings.Contains(ss.label, "/scoped-to-another-address") {
+				if r.Rejected != "" {
+					b.Hit("scoped-away-set-rejected-by-the-ledger")
+				} else {
+					b.Hit("scoped-away-set-executed")
+				}
+			}
 		} else {
 			doneSufficient = true
 			switch {
